@@ -1,87 +1,48 @@
-(* C03_Generated.v — equivalence of the GoLite translations of the trust-store
-   loading helpers of verifier/helpers.go (theories/C03_Gen.v, regenerated from
-   /repo by `vh-gen` on every run, docs/GOLITE.md) with the C03 model.
-   The trust store (interface truststore.X509TrustStore) is a function
-   parameter of the generated code; certificates are an opaque type, here
-   instantiated with the model's certificate identities (N). *)
-From Coq Require Import List Bool String Ascii NArith ZArith Lia.
-From NV Require Import Base GoLib C03_Model C03_Gen.
+(* C03_Generated.v — the code's own functions, as translated by GoLite (theories/C03_Gen.v,
+   regenerated from /repo by `vh-gen` on every run, docs/GOLITE.md; targets in
+   harness/cmd/vh-gen/targets_c03.go), against the hand-written C03 model (C03_Model.v), and
+   the theorems of C03_Property.v / C03_WithC08.v transported onto them.
+   Statements only; the proofs are in theories/C03_GenProofs.v. Table: docs/audit/C03.md, "GoLite".
+
+   Every theorem quantifies over ALL inputs of the generated function: every trust-store list
+   (any length, duplicates, malformed values), every policy document, every reference string.
+   Reading:
+     store               the trust store (interface truststore.X509TrustStore) is a FUNCTION
+                         (type, name) -> (certificates, error) handed to the generated code;
+                         certificates are an opaque type, instantiated with the model's
+                         certificate identities (N)
+     store_agrees st fs  the function answers like the model's trust store [fs]
+     load_rel st acc m r the Go result r is the model verdict m (certificates appended to acc and
+                         no error / the format error / the error the store returned)
+     fs_of st ty l       the model's trust store read off the function at the stores of type ty
+                         that l lists (so that NO hypothesis about the function is needed)
+     type_for scheme ty  ty is the store type of the signing scheme ("notary.x509" -> "ca",
+                         "notary.x509.signingAuthority" -> "signingAuthority")
+     m8_of_oci / m8_of_blob, tr g, enc g   a generated statement as a statement of the C03 model,
+                         exactly as C03_WithC08 renders C08's statements; g gives the two fields
+                         derived from signatureVerification (C02/C09 own that derivation)
+   Oracles: the trust store function, pkix.ParseDistinguishedName [parse], Subject.String() of a
+   certificate [subject]; core's signature.VerifyAuthenticity would be one, but verifyAuthenticity
+   itself is outside the GoLite subset (see the audit). Hypotheses about oracles appear only in the
+   theorems that mention [store_agrees]. *)
+From Coq Require Import List Bool String Ascii NArith ZArith.
+From NV Require Import Base GoLib C03_Model C03_Proofs C03_Audit C03_WithC08 C03_Gen C03_GenProofs.
 Import ListNotations.
 Local Open Scope string_scope.
 Local Open Scope list_scope.
 
-(* the injected trust store answers like the model's file system *)
-Definition store_agrees (store : string -> string -> list N * option err) (fs : fsys) : Prop :=
-  forall ty name,
-    match fs_get fs ty name with
-    | Certs l => store ty name = (l, None)
-    | LoadError => exists cs e, store ty name = (cs, Some e)
-    end.
-
-Definition format_err : err :=
-  Err "truststore.TrustStoreError"
-      "error while loading the trust store, trust policy statement %q is missing separator in trust store value %q. The required format is <TrustStoreType>:<TrustStoreName>" [].
-
-(* what the generated function returns for a verdict of the model *)
-Definition load_rel (store : string -> string -> list N * option err) (acc : list N)
-           (m : lres) (g : list N * option err) : Prop :=
-  match m with
-  | LOk cs => g = (acc ++ cs, None)
-  | LErrFormat _ => g = ([], Some format_err)
-  | LErrLoad ty name => exists cs e, store ty name = (cs, Some e) /\ g = ([], Some e)
-  end.
-
-Lemma set_contains_add (pset : list (string * unit)) s x :
-  gen_container_Set_Contains_string (gen_container_Set_Add_string pset s) x
-  = String.eqb x s || gen_container_Set_Contains_string pset x.
-Proof.
-  unfold gen_container_Set_Contains_string, gen_container_Set_Add_string, map_get_ok.
-  rewrite (map_get_set String.eqb string_eqb_spec').
-  destruct (String.eqb x s); [reflexivity|]. cbn [orb]. reflexivity.
-Qed.
-
-Lemma load_loop store fs (Hs : store_agrees store fs) ty : forall stores pset proc acc,
-  (forall x, gen_container_Set_Contains_string pset x = mem_str x proc) ->
-  load_rel store acc (fst (load fs ty stores proc))
-           (gen_verifier_loadX509TrustStoresWithType_loop1 N ty store stores pset acc).
-Proof.
-  induction stores as [|s rest IH]; intros pset proc acc Hp.
-  - cbn. rewrite app_nil_r. reflexivity.
-  - cbn [load gen_verifier_loadX509TrustStoresWithType_loop1]. rewrite Hp.
-    destruct (mem_str s proc); [apply IH; exact Hp|].
-    unfold colon. rewrite str_cut_byte.
-    destruct (cut_byte ":" s) as [[sty name]|]; [|reflexivity].
-    cbn [negb]. destruct (String.eqb ty sty); cbn [negb]; [|apply IH; exact Hp].
-    pose proof (Hs ty name) as Hg. destruct (fs_get fs ty name) as [l|].
-    + rewrite Hg. cbn [is_none negb fst].
-      specialize (IH (gen_container_Set_Add_string pset s) (s :: proc) (acc ++ l)).
-      assert (Hp' : forall x, gen_container_Set_Contains_string (gen_container_Set_Add_string pset s) x = mem_str x (s :: proc)).
-      { intros x. rewrite set_contains_add, Hp. reflexivity. }
-      specialize (IH Hp').
-      destruct (fst (load fs ty rest (s :: proc))) as [cs|ty' n'|f]; cbn [load_rel] in *.
-      * rewrite IH, <- app_assoc. reflexivity.
-      * exact IH.
-      * exact IH.
-    + destruct Hg as [cs [e Hg]]. rewrite Hg. cbn [is_none negb fst load_rel].
-      exists cs, e. split; [exact Hg|reflexivity].
-Qed.
+(* ---------- the loading loop = the model's [load] ---------- *)
 
 Theorem C03_gen_loadX509TrustStoresWithType_equiv :
   forall store fs, store_agrees store fs ->
   forall ty policy stores,
     load_rel store [] (fst (load fs ty stores []))
              (gen_verifier_loadX509TrustStoresWithType N ty policy stores store).
-Proof.
-  intros store fs Hs ty policy stores. unfold gen_verifier_loadX509TrustStoresWithType.
-  apply (load_loop store fs Hs). intros x. reflexivity.
-Qed.
+Proof. exact gen_load_with_type. Qed.
 Print Assumptions C03_gen_loadX509TrustStoresWithType_equiv.
 
-(* loadX509TrustStores: the store type is decided by the signing scheme *)
-Definition scheme_of (s : string) : scheme :=
-  if String.eqb s "notary.x509" then SX509
-  else if String.eqb s "notary.x509.signingAuthority" then SSA else SOther.
-
+(* loadX509TrustStores: the store type is decided by the signing scheme; any other scheme fails
+   without asking the store *)
 Theorem C03_gen_loadX509TrustStores_equiv :
   forall store scheme policy stores,
     match store_type_of (scheme_of scheme) with
@@ -90,12 +51,7 @@ Theorem C03_gen_loadX509TrustStores_equiv :
     | None => exists e, gen_verifier_loadX509TrustStores N scheme policy stores store = ([], Some e)
                         /\ err_typ e = "truststore.TrustStoreError"
     end.
-Proof.
-  intros store scheme policy stores. unfold gen_verifier_loadX509TrustStores, scheme_of.
-  destruct (String.eqb scheme "notary.x509"); [reflexivity|].
-  destruct (String.eqb scheme "notary.x509.signingAuthority"); [reflexivity|].
-  eexists; split; reflexivity.
-Qed.
+Proof. exact gen_load_scheme. Qed.
 Print Assumptions C03_gen_loadX509TrustStores_equiv.
 
 Theorem C03_gen_loadX509TSATrustStores_equiv :
@@ -105,13 +61,9 @@ Theorem C03_gen_loadX509TSATrustStores_equiv :
          = gen_verifier_loadX509TrustStoresWithType N ty_tsa policy stores store
     else exists e, gen_verifier_loadX509TSATrustStores N scheme policy stores store = ([], Some e)
                    /\ err_typ e = "truststore.TrustStoreError".
-Proof.
-  intros store scheme policy stores. unfold gen_verifier_loadX509TSATrustStores.
-  destruct (String.eqb scheme "notary.x509"); [reflexivity|]. eexists; split; reflexivity.
-Qed.
+Proof. exact gen_load_tsa. Qed.
 Print Assumptions C03_gen_loadX509TSATrustStores_equiv.
 
-(* isTSATrustStoreInPolicy *)
 Theorem C03_gen_isTSATrustStoreInPolicy_equiv :
   forall policy stores,
     match tsa_in_policy stores with
@@ -119,12 +71,283 @@ Theorem C03_gen_isTSATrustStoreInPolicy_equiv :
     | None => exists e, gen_verifier_isTSATrustStoreInPolicy policy stores = (false, Some e)
                         /\ err_typ e = "truststore.TrustStoreError"
     end.
-Proof.
-  intros policy stores. unfold gen_verifier_isTSATrustStoreInPolicy.
-  induction stores as [|s rest IH]; [reflexivity|].
-  cbn [tsa_in_policy gen_verifier_isTSATrustStoreInPolicy_loop1]. unfold colon. rewrite str_cut_byte.
-  destruct (cut_byte ":" s) as [[sty name]|]; cbn [negb].
-  - unfold ty_tsa. destruct (String.eqb sty "tsa"); [reflexivity|exact IH].
-  - eexists; split; reflexivity.
-Qed.
+Proof. exact gen_tsa_in_policy. Qed.
 Print Assumptions C03_gen_isTSATrustStoreInPolicy_equiv.
+
+(* ---------- for EVERY trust store function (no hypothesis about the oracle) ---------- *)
+
+(* the generated loading is the model's [load] on the trust store read off the function *)
+Theorem C03_gen_load_any_store : forall (store : tstore) ty policy stores,
+  load_rel store [] (fst (load (fs_of store ty stores) ty stores []))
+           (gen_verifier_loadX509TrustStoresWithType N ty policy stores store).
+Proof. exact gen_load_any_store. Qed.
+Print Assumptions C03_gen_load_any_store.
+
+(* C03_sound's loading half: every certificate the loop returns is held by a LISTED store of the
+   WANTED type that the trust store delivered without error *)
+Theorem C03_gen_load_sound : forall (store : tstore) ty policy stores certs c,
+  gen_verifier_loadX509TrustStoresWithType N ty policy stores store = (certs, None) -> In c certs ->
+  exists name l, In (store_value ty name) stores /\ store ty name = (l, None) /\ In c l.
+Proof. exact gen_load_sound. Qed.
+Print Assumptions C03_gen_load_sound.
+
+(* C03_load_error_never_passes: a listed store of the wanted type that cannot be loaded makes the
+   loading fail (no certificate is returned), wherever it stands in the list *)
+Theorem C03_gen_load_error : forall (store : tstore) ty policy stores name cs e,
+  contains_byte colon ty = false ->
+  In (store_value ty name) stores -> store ty name = (cs, Some e) ->
+  exists e', gen_verifier_loadX509TrustStoresWithType N ty policy stores store = ([], Some e').
+Proof. exact gen_load_error. Qed.
+Print Assumptions C03_gen_load_error.
+
+(* C03_fs_noninterference: the loading depends on the trust store only at the listed stores of
+   the wanted type *)
+Theorem C03_gen_load_frame : forall (store store' : tstore) ty policy stores,
+  (forall name, In (store_value ty name) stores -> store ty name = store' ty name) ->
+  gen_verifier_loadX509TrustStoresWithType N ty policy stores store
+  = gen_verifier_loadX509TrustStoresWithType N ty policy stores store'.
+Proof. exact gen_load_frame. Qed.
+Print Assumptions C03_gen_load_frame.
+
+(* the three through loadX509TrustStores (what processSignature calls): the type is the scheme's *)
+Theorem C03_gen_trust_sound : forall (store : tstore) scheme policy stores certs c,
+  gen_verifier_loadX509TrustStores N scheme policy stores store = (certs, None) -> In c certs ->
+  exists ty name l, type_for scheme ty /\ In (store_value ty name) stores /\
+                    store ty name = (l, None) /\ In c l.
+Proof. exact gen_trust_sound. Qed.
+Print Assumptions C03_gen_trust_sound.
+
+Theorem C03_gen_trust_error : forall (store : tstore) scheme policy stores ty name cs e,
+  type_for scheme ty -> In (store_value ty name) stores -> store ty name = (cs, Some e) ->
+  exists e', gen_verifier_loadX509TrustStores N scheme policy stores store = ([], Some e').
+Proof. exact gen_trust_error. Qed.
+Print Assumptions C03_gen_trust_error.
+
+Theorem C03_gen_trust_frame : forall (store store' : tstore) scheme policy stores,
+  (forall ty name, type_for scheme ty -> In (store_value ty name) stores -> store ty name = store' ty name) ->
+  gen_verifier_loadX509TrustStores N scheme policy stores store
+  = gen_verifier_loadX509TrustStores N scheme policy stores store'.
+Proof. exact gen_trust_frame. Qed.
+Print Assumptions C03_gen_trust_frame.
+
+(* tsa stores: loaded only under notary.x509 and only from listed stores of type tsa *)
+Theorem C03_gen_tsa_sound : forall (store : tstore) scheme policy stores certs c,
+  gen_verifier_loadX509TSATrustStores N scheme policy stores store = (certs, None) -> In c certs ->
+  scheme = "notary.x509" /\
+  exists name l, In (store_value ty_tsa name) stores /\ store ty_tsa name = (l, None) /\ In c l.
+Proof. exact gen_tsa_sound. Qed.
+Print Assumptions C03_gen_tsa_sound.
+
+(* the model's [auth_stage] up to the call of core's VerifyAuthenticity: its failure classes are
+   the failures of the generated loading, and the certificates it hands to [verify_authenticity]
+   are the certificates the generated loading returns *)
+Theorem C03_gen_auth_stage_trust : forall (store : tstore) fs, store_agrees store fs ->
+  forall scheme policy stores chain,
+    let g := gen_verifier_loadX509TrustStores N scheme policy stores store in
+    match store_type_of (scheme_of scheme) with
+    | None => fst (auth_stage (scheme_of scheme) fs chain stores) = AScheme /\ exists e, g = ([], Some e)
+    | Some ty =>
+        match fst (load fs ty stores []) with
+        | LOk certs => g = (certs, None)
+                       /\ fst (auth_stage (scheme_of scheme) fs chain stores) = verify_authenticity certs chain
+        | LErrLoad t n => fst (auth_stage (scheme_of scheme) fs chain stores) = ALoad t n
+                          /\ exists cs e, store t n = (cs, Some e) /\ g = ([], Some e)
+        | LErrFormat s => fst (auth_stage (scheme_of scheme) fs chain stores) = AFormat s
+                          /\ g = ([], Some format_err)
+        end
+    end.
+Proof. exact gen_auth_stage_trust. Qed.
+Print Assumptions C03_gen_auth_stage_trust.
+
+(* ---------- isCriticalFailure: what ends the verification ---------- *)
+
+Theorem C03_gen_isCriticalFailure_spec : forall r,
+  gen_verifier_isCriticalFailure r =
+  match ptr_val r with
+  | None => None      (* nil result: run-time panic *)
+  | Some v => Some (String.eqb (ValidationResult_Action v) "enforce" && negb (is_none (ValidationResult_Error v)))
+  end.
+Proof. exact gen_is_critical_spec. Qed.
+Print Assumptions C03_gen_isCriticalFailure_spec.
+
+(* C03_stop_iff: on the authenticity result processSignature builds (action of the statement's
+   level, error nil exactly on a pass) isCriticalFailure is the model's stop bit *)
+Theorem C03_gen_isCriticalFailure_stop : forall i st r v,
+  select (i_policy i) (i_repo i) = Some st -> st_action st <> SkipLevel ->
+  ptr_val r = Some v ->
+  ValidationResult_Action v = action_str (st_action st) ->
+  is_none (ValidationResult_Error v)
+  = is_pass (fst (auth_stage (i_scheme i) (i_fs i) (i_chain i) (st_stores st))) ->
+  gen_verifier_isCriticalFailure r = Some (o_stop (model i)).
+Proof. exact gen_is_critical_stop. Qed.
+Print Assumptions C03_gen_isCriticalFailure_stop.
+
+(* ---------- which statement's trust store list is used ---------- *)
+
+(* getArtifactPathFromReference never panics; [i_repo] of the model is the text before the LAST
+   '@' (C08_Model.last_at), handed out iff validateRegistryScopeFormat accepts it *)
+Theorem C03_gen_getArtifactPathFromReference_spec : forall ref,
+  match M8.last_at ref with
+  | None => exists e, gen_trustpolicy_getArtifactPathFromReference ref = Some ("", Some e)
+  | Some p =>
+      gen_trustpolicy_getArtifactPathFromReference ref =
+      match gen_trustpolicy_validateRegistryScopeFormat p with
+      | Some e => Some ("", Some e)
+      | None => Some (p, None)
+      end
+  end.
+Proof. exact gen_artifact_path. Qed.
+Print Assumptions C03_gen_getArtifactPathFromReference_spec.
+
+(* OCIDocument.GetApplicableTrustPolicy = the model's [select] on the artifact path: never panics;
+   it hands out a clone of the statement [select] picks, an error when [select] picks none *)
+Theorem C03_gen_OCI_GetApplicableTrustPolicy_equiv : forall g d ref,
+  match M8.last_at ref with
+  | None => exists e, gen_trustpolicy_OCIDocument_GetApplicableTrustPolicy d ref = Some (PNil, Some e)
+  | Some path =>
+      match gen_trustpolicy_validateRegistryScopeFormat path with
+      | Some e => gen_trustpolicy_OCIDocument_GetApplicableTrustPolicy d ref = Some (PNil, Some e)
+      | None => exists r, gen_trustpolicy_OCIDocument_GetApplicableTrustPolicy d ref = Some r
+                  /\ oci_sel_rel g (OCIDocument_TrustPolicies d) r
+                       (select (map (tr g) (map m8_of_oci (OCIDocument_TrustPolicies d))) path)
+      end
+  end.
+Proof. exact gen_oci_select. Qed.
+Print Assumptions C03_gen_OCI_GetApplicableTrustPolicy_equiv.
+
+(* the clones that are handed out keep name, trust stores, identities (and scopes / global flag) *)
+Theorem C03_gen_clone_keeps_stores :
+  (forall p, exists c, gen_trustpolicy_OCITrustPolicy_clone p = PNew c
+     /\ OCITrustPolicy_Name c = OCITrustPolicy_Name p
+     /\ OCITrustPolicy_TrustStores c = OCITrustPolicy_TrustStores p
+     /\ OCITrustPolicy_TrustedIdentities c = OCITrustPolicy_TrustedIdentities p
+     /\ OCITrustPolicy_RegistryScopes c = OCITrustPolicy_RegistryScopes p)
+  /\ (forall p, exists c, gen_trustpolicy_BlobTrustPolicy_clone p = PNew c
+     /\ BlobTrustPolicy_Name c = BlobTrustPolicy_Name p
+     /\ BlobTrustPolicy_TrustStores c = BlobTrustPolicy_TrustStores p
+     /\ BlobTrustPolicy_TrustedIdentities c = BlobTrustPolicy_TrustedIdentities p
+     /\ BlobTrustPolicy_GlobalPolicy c = BlobTrustPolicy_GlobalPolicy p).
+Proof. split; [exact oci_clone_new|exact blob_clone_new]. Qed.
+Print Assumptions C03_gen_clone_keeps_stores.
+
+(* C03_verify_sound on the code's own functions (selection composed with loading): the
+   certificates handed to the authenticity check of Verify come only from stores that the
+   statement [select] picks lists, of the scheme's type - for every trust store function *)
+Theorem C03_gen_verify_trust : forall g d ref c scheme (store : tstore) certs x,
+  gen_trustpolicy_OCIDocument_GetApplicableTrustPolicy d ref = Some (PNew c, None) ->
+  gen_verifier_loadX509TrustStores N scheme (OCITrustPolicy_Name c) (OCITrustPolicy_TrustStores c) store
+  = (certs, None) -> In x certs ->
+  exists path p ty name l,
+    M8.last_at ref = Some path /\ In p (OCIDocument_TrustPolicies d) /\
+    select (map (tr g) (map m8_of_oci (OCIDocument_TrustPolicies d))) path = Some (tr g (m8_of_oci p)) /\
+    type_for scheme ty /\ In (store_value ty name) (OCITrustPolicy_TrustStores p) /\
+    store ty name = (l, None) /\ In x l.
+Proof. exact gen_verify_trust. Qed.
+Print Assumptions C03_gen_verify_trust.
+
+(* BlobDocument.GetApplicableTrustPolicy: blank name -> error; else the FIRST statement of that
+   name (cloned), an error if there is none. GetGlobalTrustPolicy: the first global statement *)
+Theorem C03_gen_Blob_GetApplicableTrustPolicy_spec : forall d n,
+  gen_trustpolicy_BlobDocument_GetApplicableTrustPolicy d n =
+  if String.eqb (str_trim_space n) ""
+  then (PNil, Some (Err "errors" "policy name cannot be empty" []))
+  else blob_found (find (name_isb n) (BlobDocument_TrustPolicies d))
+                  (Err "fmt" "no applicable blob trust policy with name %q" []).
+Proof. exact gen_blob_by_name. Qed.
+Print Assumptions C03_gen_Blob_GetApplicableTrustPolicy_spec.
+
+Theorem C03_gen_Blob_GetGlobalTrustPolicy_spec : forall d,
+  gen_trustpolicy_BlobDocument_GetGlobalTrustPolicy d =
+  blob_found (find BlobTrustPolicy_GlobalPolicy (BlobDocument_TrustPolicies d))
+             (Err "fmt" "no global blob trust policy" []).
+Proof. exact gen_blob_global. Qed.
+Print Assumptions C03_gen_Blob_GetGlobalTrustPolicy_spec.
+
+(* C03_verifyblob_named_selects / _global_selects on the code's own functions: on documents
+   BlobDocument.Validate accepts (unique names, at most one global statement) without statements
+   named "*" / "", what is handed out is what [select] picks on the rendering of C03_WithC08 *)
+Theorem C03_gen_blob_select_name : forall g d n,
+  String.eqb (str_trim_space n) "" = false ->
+  M8.names_unique (map m8_of_blob (BlobDocument_TrustPolicies d)) = true ->
+  (forall p, In p (BlobDocument_TrustPolicies d) -> BlobTrustPolicy_Name p <> wildcard) ->
+  blob_sel_rel g false (BlobDocument_TrustPolicies d)
+    (gen_trustpolicy_BlobDocument_GetApplicableTrustPolicy d n)
+    (select (map (enc g false) (map m8_of_blob (BlobDocument_TrustPolicies d))) n).
+Proof. exact gen_blob_select_name. Qed.
+Print Assumptions C03_gen_blob_select_name.
+
+Theorem C03_gen_blob_select_global : forall g d,
+  M8.global_unique (map m8_of_blob (BlobDocument_TrustPolicies d)) = true ->
+  (forall p, In p (BlobDocument_TrustPolicies d) ->
+             BlobTrustPolicy_Name p <> wildcard /\ BlobTrustPolicy_Name p <> "") ->
+  blob_sel_rel g true (BlobDocument_TrustPolicies d)
+    (gen_trustpolicy_BlobDocument_GetGlobalTrustPolicy d)
+    (select (map (enc g true) (map m8_of_blob (BlobDocument_TrustPolicies d))) "").
+Proof. exact gen_blob_select_global. Qed.
+Print Assumptions C03_gen_blob_select_global.
+
+(* VerifyBlob: the certificates handed to the authenticity check come only from stores listed by
+   the statement handed out, of the scheme's type *)
+Theorem C03_gen_verifyblob_trust :
+  forall d (r : ptr trustpolicy_BlobTrustPolicy * option err) c scheme (store : tstore) certs x,
+  (exists n, r = gen_trustpolicy_BlobDocument_GetApplicableTrustPolicy d n)
+  \/ r = gen_trustpolicy_BlobDocument_GetGlobalTrustPolicy d ->
+  r = (PNew c, None) ->
+  gen_verifier_loadX509TrustStores N scheme (BlobTrustPolicy_Name c) (BlobTrustPolicy_TrustStores c) store
+  = (certs, None) -> In x certs ->
+  exists p ty name l,
+    In p (BlobDocument_TrustPolicies d) /\ BlobTrustPolicy_Name p = BlobTrustPolicy_Name c /\
+    type_for scheme ty /\ In (store_value ty name) (BlobTrustPolicy_TrustStores p) /\
+    store ty name = (l, None) /\ In x l.
+Proof. exact gen_verifyblob_trust. Qed.
+Print Assumptions C03_gen_verifyblob_trust.
+
+(* ---------- verifyX509TrustedIdentities (the step that may overwrite the authenticity error) ---------- *)
+
+(* the identity "*" accepts every chain for every parser and every certificate type: the driver's
+   assumption "identities * => the identity step does not touch the authenticity result" *)
+Theorem C03_gen_identities_wildcard : forall Cert parse subject policy ids (certs : list Cert),
+  mem_str "*" ids = true ->
+  gen_verifier_verifyX509TrustedIdentities Cert parse subject policy ids certs = Some None.
+Proof. exact gen_identities_wildcard. Qed.
+Print Assumptions C03_gen_identities_wildcard.
+
+(* a nil result has a witness: "*" is listed, or a listed identity x509.subject:<v> with v <> ""
+   parses to a DN that IsSubsetDN finds in the parsed subject of the LEAF certificate *)
+Theorem C03_gen_identities_nil_witness : forall Cert parse subject policy ids (certs : list Cert),
+  gen_verifier_verifyX509TrustedIdentities Cert parse subject policy ids certs = Some None ->
+  mem_str "*" ids = true \/ id_witness Cert parse subject ids [] certs.
+Proof. exact gen_identities_nil_witness. Qed.
+Print Assumptions C03_gen_identities_nil_witness.
+
+(* ---------- the hypotheses are satisfiable by a non-trivial input ---------- *)
+
+(* Verify: the statement scoped to the repository wins over "*"; ca:good is listed twice and
+   loaded once; tsa:good / signingAuthority:good are listed and not asked under notary.x509 *)
+Example C03_gen_example_verify :
+  exists c, gen_trustpolicy_OCIDocument_GetApplicableTrustPolicy gx_doc "reg.example/repo@sha256:00" = Some (PNew c, None)
+    /\ OCITrustPolicy_Name c = "exact"
+    /\ gen_verifier_loadX509TrustStores N "notary.x509" (OCITrustPolicy_Name c) (OCITrustPolicy_TrustStores c) gx_store
+       = ([7%N; 8%N], None)
+    /\ gen_verifier_loadX509TrustStores N "notary.x509.signingAuthority" (OCITrustPolicy_Name c) (OCITrustPolicy_TrustStores c) gx_store
+       = ([9%N], None)
+    /\ gen_verifier_loadX509TSATrustStores N "notary.x509" (OCITrustPolicy_Name c) (OCITrustPolicy_TrustStores c) gx_store
+       = ([9%N], None).
+Proof. eexists. vm_compute. repeat split. Qed.
+
+(* the wildcard statement lists a store that cannot be loaded: the loading fails *)
+Example C03_gen_example_load_error :
+  exists c e, gen_trustpolicy_OCIDocument_GetApplicableTrustPolicy gx_doc "reg.example/other@sha256:00" = Some (PNew c, None)
+    /\ OCITrustPolicy_Name c = "wild"
+    /\ gen_verifier_loadX509TrustStores N "notary.x509" (OCITrustPolicy_Name c) (OCITrustPolicy_TrustStores c) gx_store
+       = ([], Some e).
+Proof. eexists. eexists. vm_compute. repeat split. Qed.
+
+Example C03_gen_example_verifyblob :
+  (exists c, gen_trustpolicy_BlobDocument_GetGlobalTrustPolicy gx_blob = (PNew c, None)
+     /\ gen_verifier_loadX509TrustStores N "notary.x509.signingAuthority" (BlobTrustPolicy_Name c) (BlobTrustPolicy_TrustStores c) gx_store
+        = ([9%N], None))
+  /\ M8.names_unique (map m8_of_blob (BlobDocument_TrustPolicies gx_blob)) = true
+  /\ M8.global_unique (map m8_of_blob (BlobDocument_TrustPolicies gx_blob)) = true
+  /\ String.eqb (str_trim_space "b1") "" = false.
+Proof. split; [eexists; vm_compute; split; reflexivity|]. vm_compute. repeat split. Qed.
